@@ -2,6 +2,15 @@
 //@ end
 //@ item signature.rs struct SignatureOptions
 //@ end
+impl SignatureOptions {
+//@ fn signature.rs impl SignatureOptions :: url_encode_form
+//@ params
+//@ props C08 C12
+//@ ret r
+//@ spec
+        ensures r.url_encode_form && !r.s3 //# C12 name=form_folding_option_constructor
+//@ end
+}
 
 // get_content_type_and_charset and the reference reading content_type_of: contracts/ctype.rs (verified in unit ctype)
 
